@@ -132,7 +132,7 @@ class Check(PropCheck):
             r0 = rng.random()
             names = ['t%d' % i for i in range(n)] if r0 < 0.4 else (['Tip_%d' % i for i in range(n)] if r0 < 0.7 else
                      [('x%d' if i % 2 else 'X%d') % i for i in range(n)] if r0 < 0.85 else [chr(ord('a') + (i % 26)).upper() * (i % 2) + chr(ord('a') + (i % 26)) * (1 - i % 2) + str(i // 26) for i in range(n)])
-            t = gen.rand_tree(rng, n, 'none', p_multi=rng.choice([0, 0.3]), p_unary=0.0, internal_names=rng.choice([0.2, 0.8]), names=names)
+            t = gen.rand_tree(rng, n, 'none', p_multi=rng.choice([0, 0.3]), p_unary=0.0, internal_names=rng.choice([0.2, 0.8]), names=names, collide=rng.choice([0, 0.4]))
             vs, mapping = self.variants(t, rng, names)
             ops = []
             for vi, v in enumerate(vs):
